@@ -693,6 +693,8 @@ def run(ctx):
         [f'restart-{i}' for i in range(48 if q else 300)] + [f"fast-{i}" for i in range(48 if q else 300)]
     ctx.rng.shuffle(items)
     check.pmap(ctx, 'props.c10', 'one', items, case_timeout=300 if q else 1200)
+    # correspondence with the Lean model of the call layer of moment / accumulate (PGModel/Api.lean, driver command `api`)
+    check.pmap(ctx, 'props.corr_models', 'one_api', list(range(16 if q else 120)), case_timeout=300)
 
 
 def replay(ctx, payload):
